@@ -569,10 +569,15 @@ def check_tableau_pair(res, drv, t1, t2, same, inp, target=None):
     # exact correspondence with the model of the tableau path (`lcCheckStates`: state_to_graph on both states, converter_gate_list on the
     # graphs, gates1 + gate_list + reversed(gates2 with P <-> P_dag), validation) — repaired is_lc_equivalent, both inputs tableaux
     model_line = None
-    if target is None and repaired():
+    if repaired():
         s1 = t1.to_stabilizer() if isinstance(t1, _CT) else t1
-        s2 = t2.to_stabilizer() if isinstance(t2, _CT) else t2
-        model_line = f"lc.checkstates {su.stab_args(s1, 'a')} {su.stab_args(s2, 'b')} validate=1"
+        if target is None:
+            s2 = t2.to_stabilizer() if isinstance(t2, _CT) else t2
+            model_line = f"lc.checkstates {su.stab_args(s1, 'a')} {su.stab_args(s2, 'b')} validate=1"
+        else:
+            # second argument a graph: `lcCheckStateGraph`
+            B2 = gu.to_adj(t2)
+            model_line = f"lc.checkstategraph {su.stab_args(s1, 'a')} n={len(B2)} b={gu.bits(B2)} validate=1"
     try:
         ok, gates = lc_check(t1, t2, validate=True)
     except Exception as e:  # noqa: BLE001
